@@ -3,7 +3,6 @@ package main
 import (
 	"bufio"
 	"bytes"
-	"runtime"
 	"crypto/sha1"
 	"encoding/hex"
 	"encoding/json"
@@ -11,6 +10,7 @@ import (
 	"math/rand"
 	"os"
 	"path/filepath"
+	"runtime"
 	"sort"
 	"strings"
 )
